@@ -12,3 +12,6 @@ import RustCcModel.Properties.C03
 #print axioms RustCc.C03.no_event_after_drop
 #print axioms RustCc.C03.dropped_stays_dropped
 #print axioms RustCc.C03.half_dead_is_owned
+#print axioms RustCc.C03.released_box_has_no_live_value
+#print axioms RustCc.C03.free_only_after_value_gone
+#print axioms RustCc.C03.owned_is_dead
